@@ -1,4 +1,5 @@
 """rule templates shared by property modules (DESIGN 3.1): effect enumeration, guards, helpers"""
+import re
 from . import flow
 from .flow import term_of_operand, term_of_local, term_of_place, term_str, strip_calls_bb
 from .lir import strip_generics, strip_turbofish
@@ -37,6 +38,21 @@ def variants_of(prog, adt_suffix):
 
 def callee_name(t):
     return strip_generics(t.callee_best() or '?')
+
+
+def is_poll_term(t):
+    """is the term the poll of an awaited future: `Future::poll(..)`, or - when the future's type is a known async fn - the resolved
+    coroutine body `f::{closure#0}(Pin::new_unchecked(..), cx)`"""
+    if not (isinstance(t, tuple) and len(t) >= 3 and t[0] == 'call' and isinstance(t[1], str)):
+        return False
+    if t[1].endswith('Future::poll'):
+        return True
+    if t[1].endswith('::{closure#0}') and len(t[2]) == 2:
+        a = t[2][0]
+        while isinstance(a, tuple) and a and a[0] in ('ref', 'deref') and len(a) == 2:
+            a = a[1]
+        return isinstance(a, tuple) and a[:1] == ('call',) and isinstance(a[1], str) and a[1].endswith('::new_unchecked')
+    return False
 
 
 def effects(ctx, bf, roots):
@@ -94,6 +110,9 @@ def linear(t):
         return {x: v * k for x, v in a.items()}, ca * k
     if h == 'cast':
         return linear(t[2])
+    w = int_from_arg(t)
+    if w is not None:
+        return linear(w)
     if h == 'call' and isinstance(t[1], str) and t[1].endswith('::len') and len(t[2]) == 1:
         # length of a sub-slice taken with an explicit range: buf[a..b].len() = b - a (through `?` / unwrap / Some-payload wrappers)
         r = _subslice_range(t[2][0])
@@ -108,6 +127,29 @@ def linear(t):
                     del d[k]
             return d, cb - ca
     return {t: 1}, 0
+
+
+_INT_FROM = re.compile(r'^<[ui](8|16|32|64|128|size) as core::convert::(From|Into)<[ui](8|16|32|64|128|size)>>::(from|into)$')
+
+
+def int_from_arg(t):
+    """x if t is `T::from(x)` / `x.into()` between primitive integer types (lossless by construction: the same value as a widening `as`)"""
+    if isinstance(t, tuple) and len(t) >= 3 and t[0] == 'call' and isinstance(t[1], str) and len(t[2]) == 1 and _INT_FROM.match(t[1]):
+        return t[2][0]
+    return None
+
+
+def strip_widening(t):
+    """the value under `as` casts and lossless integer From/Into conversions"""
+    while isinstance(t, tuple) and t:
+        if t[0] == 'cast':
+            t = t[2]
+            continue
+        w = int_from_arg(t)
+        if w is None:
+            break
+        t = w
+    return t
 
 
 def _strip_wrappers(t):
@@ -265,6 +307,31 @@ def cond_true(c):
 
 def cond_false(c):
     return c[1] == (0,)
+
+
+def option_known(c):
+    """(option term, True for Some / False for None) if the path condition c settles an Option: `o.is_some()` / `o.is_none()` taken
+    either way, or the discriminant test of a `match o` / `if let Some(..) = o` (1 = Some, 0 = None); else None"""
+    term, val = c[0], c[1]
+    t = term
+    while isinstance(t, tuple) and t and t[0] in ('ref', 'deref') and len(t) == 2:
+        t = t[1]
+    if not isinstance(t, tuple) or not t:
+        return None
+    if t[0] == 'call' and isinstance(t[1], str) and t[1].endswith(('Option::is_some', 'Option::is_none')) and len(t[2]) == 1:
+        truth = True if cond_true(c) else False if cond_false(c) else None
+        if truth is None:
+            return None
+        o = t[2][0]
+        while isinstance(o, tuple) and o and o[0] in ('ref', 'deref') and len(o) == 2:
+            o = o[1]
+        return o, (truth if t[1].endswith('is_some') else not truth)
+    if t[0] == 'discr' and val in ((1,), (0,), ('not', (0,)), ('not', (1,))):
+        o = t[1]
+        while isinstance(o, tuple) and o and o[0] in ('ref', 'deref') and len(o) == 2:
+            o = o[1]
+        return o, val in ((1,), ('not', (0,)))
+    return None
 
 
 def defs_with_conditions(bf, local):
@@ -490,6 +557,69 @@ def _closure_return(clo):
     if flow.term_contains(rt, lambda y: isinstance(y, tuple) and len(y) == 2 and y[0] == 'param' and isinstance(y[1], int) and y[1] >= 2):
         return None
     return rw(rt)
+
+
+def closure_result(clo, args):
+    """the value a closure term ('closure', path, captures) returns when called with the argument terms `args`, as a def-chain term
+    with captures and arguments substituted; None when the closure has more than one return definition"""
+    if _PF is None or not (isinstance(clo, tuple) and clo[:1] == ('closure',)):
+        return None
+    path, caps = clo[1], clo[2]
+    bl = _PF.prog.by_short.get(strip_generics(path)) or _PF.prog.by_short.get(path) or []
+    if len(bl) != 1:
+        return None
+    cbf = _PF.bf(bl[0])
+    rt = term_of_local(cbf, 0)
+    if not isinstance(rt, tuple) or rt[:1] == ('phi',):
+        return None
+
+    def rw(x):
+        if isinstance(x, tuple):
+            if len(x) == 3 and x[0] == 'field' and isinstance(x[2], str) and x[2].isdigit() and x[1] in (('param', 1), ('deref', ('param', 1))) and int(x[2]) < len(caps):
+                return caps[int(x[2])]
+            if len(x) == 2 and x[0] == 'param' and isinstance(x[1], int) and 2 <= x[1] < 2 + len(args):
+                return args[x[1] - 2]
+            r = tuple(rw(y) for y in x)
+            if len(r) == 2 and r[0] == 'deref' and isinstance(r[1], tuple) and len(r[1]) == 2 and r[1][0] == 'ref':
+                return r[1][1]
+            return r
+        return x
+    return rw(rt)
+
+
+ITEM = ('item',)
+
+
+def search_returns(bf):
+    """the `Some(..)` results of an Option-returning search function, in one shape for the loop form
+    (`for x in it { if p(x) { return Some(f(x)) } } None`) and the iterator form (`it.find(|x| p(x)).map(f)`):
+    [{'value': payload term, 'guards': path-condition entries, 'site': (bb, si)}]; in the iterator form the item is the term ITEM"""
+    out = []
+    body = bf.body
+    for b in body.blocks:
+        if b.cleanup or b.idx not in bf.cfg.reach:
+            continue
+        for si, s in enumerate(b.stmts):
+            if s.k == 'assign' and s.lhs.is_local() and s.lhs.local == 0 and s.rv.k == 'agg' and s.rv.d.get('variant') == 'Some':
+                out.append({'value': term_of_operand(bf, s.rv.ops[0]), 'guards': list(path_conditions(bf, b.idx)), 'site': (b.idx, si), 'form': 'loop'})
+        t = b.term
+        if t.k == 'call' and t.dest.is_local() and t.dest.local == 0:
+            cn = callee_name(t)
+            args = [term_of_operand(bf, a) for a in t.args]
+            fmap = None
+            inner = None
+            if cn.endswith('Option::map') and len(args) == 2 and isinstance(args[1], tuple) and args[1][:1] == ('fn',):
+                fmap, inner = args[1][1], args[0]
+            elif cn.endswith('Iterator::find'):
+                inner = ('call', cn, tuple(args), b.idx)
+            while isinstance(inner, tuple) and inner and inner[0] in ('ref', 'deref') and len(inner) == 2:
+                inner = inner[1]
+            if isinstance(inner, tuple) and inner[:1] == ('call',) and inner[1].endswith('Iterator::find') and len(inner[2]) == 2:
+                pred = closure_result(inner[2][1], [('ref', ITEM)])
+                if pred is not None:
+                    val = ITEM if fmap is None else ('call', fmap, (ITEM,), b.idx)
+                    out.append({'value': val, 'guards': list(path_conditions(bf, b.idx)) + [(pred, (1,), None)], 'site': (b.idx, None), 'form': 'iter', 'iter': inner[2][0]})
+    return out
 
 
 def flag_meaning(bf, cond):
